@@ -30,11 +30,11 @@ var minLenCallees = map[string][2]int{ // callee -> {arg index (after receiver f
 }
 
 type boundObl struct {
-	fn    *ssa.Function
-	in    ssa.Instruction
-	desc  string
-	goals []ana.ILin // each must be >= 0
-	why   string
+	fn     *ssa.Function
+	in     ssa.Instruction
+	desc   string
+	goals  []ana.ILin // each must be >= 0
+	why    string
 	unsafe bool // not backed by a run-time check: the compiler's BCE result does not apply
 }
 
